@@ -89,7 +89,7 @@ PROPS = {
                              "Bulletproofs knowledge soundness (an extractor for the aggregated range proof) is NOT proved: 'a value outside the range is never accepted' rests on mega_decompose + the batching bound + differential testing of the model prover's out-of-range / wrong-commitment / residual attempts against both verifiers",
                              "generators: SHAKE256 chains are external (sha3); concrete derivation validated implicitly (any wrong generator makes cross-verification fail)"]),
     "C05": dict(module="ZkElGamal.Props.C05", ns="Zk.Props.C05", trusted=[DALEK, MERLIN],
-                assumptions=[DALEK, MERLIN, "completeness theorems carry the hypothesis that the masking commitments are not the identity (fails with probability ~2^-252 over honest nonces)",
+                assumptions=[DALEK, MERLIN, "completeness theorems carry the hypothesis that the masking commitments are not the identity (fails with probability ~2^-252 over honest nonces); for the range proofs: no proof point A,S,T1,T2,L_j,R_j is the identity and the challenges y, u_j are non-zero, stated on the produced bytes",
                              "rand::OsRng is external: the model takes nonces as explicit arguments"]),
     "C18": dict(module="ZkElGamal.Props.C18", ns="Zk.Props.C18",
                 trusted=["zeroize crate and the compiler (the wipe must not be elided; moves may copy) are external: observed by reading the value's storage after ManuallyDrop::drop"],
@@ -102,7 +102,7 @@ PROPS = {
     "C20": dict(module="ZkElGamal.Props.C20", ns="Zk.Props.C20", trusted=[DALEK, MERLIN], assumptions=[DALEK, MERLIN]),
     "C06": dict(module="ZkElGamal.Props.C06", ns="Zk.Props.C06", trusted=[DALEK, MERLIN],
                 assumptions=[DALEK, MERLIN, "the quantifier 'across every future revision' is met by pinning: kat/v1.ops and Model/LabelsV1.lean are committed and never regenerated by a check",
-                             "the executable Lean model is the independent implementation; its own prover/verifier consistency is theorem C05.*.complete for the nine sigma instructions and tested for the range proofs"]),
+                             "the executable Lean model is the independent implementation; its own prover/verifier consistency is theorem C05.*.complete for all twelve instructions"]),
     "C07": dict(module="ZkElGamal.Props.C07", ns="Zk.Props.C07", trusted=[DALEK, MERLIN],
                 assumptions=[ROM, DALEK, MERLIN, "instances are sampled (bit positions are exhaustive per instance in the thorough tier; field-boundary bytes plus one seeded bit per byte in quick)"]),
     "C08": dict(module="ZkElGamal.Props.C08", ns="Zk.Props.C08", trusted=[DALEK],
@@ -166,13 +166,13 @@ MANIFEST_TEXT = {
              "the mega-check equals E_ipp - d*E_poly (inner-product relation and polynomial-commitment equation), so offsetting errors survive for at most one d; sum_of_powers (doubling loop) and delta equal their closed forms; the multiscalar operands always have equal lengths. "
              "Correspondence (64-bit quick; 128/256 thorough): Rust-proved -> model-verified and model-proved -> Rust-verified for extreme and random splits; model prover with non-bit digit vectors, committed != proven value, residuals on A/S/T1/T2/every L_j/R_j, "
              "cancelling offsets on t_x_blinding/e_blinding, tampered a/b, and malformed contexts (padding, zero in the middle, bit length 0/65/255, empty, wrong sum) each with a proof generated for exactly those context bytes; non-canonical scalars, special values, lengths, other widths.",
-        note="Trusted: Lean kernel; dalek/merlin/sha3 modelled. Not proved: Bulletproofs extractor and prover completeness for arbitrary splits (model prover validated against the Rust verifier)."),
+        note="Trusted: Lean kernel; dalek/merlin/sha3 modelled. Not proved: Bulletproofs extractor (knowledge soundness). Prover completeness for every admissible split is theorem C05.Range.complete."),
     "C05": dict(
         technique="Lean 4 proof (constructor success, context = statement encoding, byte-level completeness prover->verifier) + differential correspondence of constructors and cross-verification (Rust-proved and model-proved, both verifiers)",
-        text="Theorems new_ok / new_context / complete for zero-ciphertext, pubkey validity, ct-ct and ct-commitment equality, grouped validity 2/3 handles, batched grouped validity 2/3 handles, and percentage-with-cap (below the cap and at the cap) at the byte level (for all keys, amounts, openings, nonces with non-identity masking commitments); "
+        text="Theorems new_ok / new_context / complete for zero-ciphertext, pubkey validity, ct-ct and ct-commitment equality, grouped validity 2/3 handles, batched grouped validity 2/3 handles, percentage-with-cap (below the cap and at the cap) and the three batched range-proof instructions (Range.complete: every admissible split; via the bit-decomposition identity for t0, the folding invariant of the inner-product argument and the s-vector lemma) at the byte level (for all keys, amounts, openings, nonces with non-identity masking commitments); "
              "constructor acceptance conditions for all nine sigma constructors incl. both cap branches (C20 theorems). Correspondence for all nine sigma instructions: boundary amounts, identity auditor key, identity second ciphertext, "
              "fees below and exactly at the cap: constructor outcome and context bytes equal the model's, and every produced proof (Rust prover and model prover) verifies in both verifiers. "
-             "Finding F2 (capped branch unreachable) was exhibited by this check and repaired by a fix: commit. Range instructions: constructor outcome/context and cross-verification in the correspondence (all admissible splits sampled, boundary amounts). PARTIAL: byte-level completeness theorems for the range instructions are not proved (differential only).",
+             "Finding F2 (capped branch unreachable) was exhibited by this check and repaired by a fix: commit. Range instructions: constructor outcome/context and cross-verification in the correspondence (all admissible splits sampled, boundary amounts).",
         note=SIGMA_NOTE + " OsRng is external (nonces are explicit in the model)."),
     "C18": dict(
         technique="Lean 4 proof (attribute/Debug table regenerated from source by `decide +kernel`; invariant by induction over create/clone/drop sequences; Debug non-interference) + storage inspection after drop and search of Debug output",
